@@ -556,9 +556,11 @@ impl ErasedNode for Node {
             expert.observability_change(true)
         }
         if let Some(Kind::MapRef(mapref)) = self.kind() {
-            // child_changed was not called while we were unlinked from our input, so the cached
-            // did_change bit says nothing about changes made in the meantime.
-            mapref.did_change.set(true);
+            // child_changed was not called while we were unlinked from our input, so if the input
+            // changed in the meantime we cannot tell whether the projection did: assume so.
+            if self.is_stale() {
+                mapref.did_change.set(true);
+            }
         }
     }
 
@@ -642,7 +644,7 @@ impl ErasedNode for Node {
             Kind::MapRef(mapref) => {
                 // don't run child_changed on our parents, because we already did that in OUR child_changed.
                 self.value_opt.replace(None);
-                self.maybe_change_value_manual(None, mapref.did_change.get(), false, state)
+                self.maybe_change_value_manual(None, mapref.did_change.replace(false), false, state)
             }
             Kind::MapWithOld(map) => {
                 let input = map.input.value_as_any().unwrap();
@@ -1314,9 +1316,11 @@ impl ErasedNode for Node {
                 let child_new = child.value_as_any().ok_or(ParentError::ChildHasNoValue)?;
                 let self_new = (mapref.mapper)(&*child_new);
 
-                let did_change = self_old.map_or(true, |old| {
-                    !self.cutoff.borrow_mut().should_cutoff(old, self_new)
-                });
+                // a change that is still pending (see became_necessary) must not be forgotten
+                let did_change = mapref.did_change.get()
+                    || self_old.map_or(true, |old| {
+                        !self.cutoff.borrow_mut().should_cutoff(old, self_new)
+                    });
                 mapref.did_change.set(did_change);
                 // now we propagate to parent
                 // (but first, set the only_in_debug stuff & recomputed_at <- t.stabilisation_num)
